@@ -415,7 +415,7 @@ func (l Gpos2_1) encode() []byte {
 	}
 	pairSetOffsets := make([]uint16, pairSetCount)
 	for i, adj := range adjust {
-		if total > 0xFFFF {
+		if total > 0xFFFF || len(adj) > 0xFFFF {
 			panic("pair set offset overflow")
 		}
 		pairSetOffsets[i] = uint16(total)
